@@ -19,6 +19,7 @@ verus! {
 //@include spec/syntax.rs
 //@include spec/grammar.rs
 //@include spec/lex.rs
+//@include spec/lex_lemmas.rs
 //@include spec/ctl.rs
 //@include spec/lowlevel.rs
 //@include spec/sem.rs
@@ -33,9 +34,6 @@ verus! {
 //@include spec/names.rs
 //@include spec/plain.rs
 //@include spec/grammar_view.rs
-//@include spec/roundtrip.rs
-//@include spec/roundtrip_lex.rs
-//@include spec/roundtrip_closed.rs
 //@include spec/indep.rs
 //@include spec/subst.rs
 //@include spec/rewrites.rs
